@@ -220,7 +220,7 @@ def vkey(var) -> str:
     return f"v{var['version']}{'fp' if var['frame_pointers'] else ''}{'ss' if var['scratch_slots'] else ''}"
 
 
-def compile_case(real: Real, case, var, extra=(), stage_after=None):
+def compile_case(real: Real, case, var, extra=(), stage_after=None, refused=False):
     """("ok", approval, clear, contract) | ("err", type, message); `extra` = further registrations
     [(case, name, how)] added BEFORE / AFTER the main method (how: add | override | decorator)"""
     pt = real.pt
@@ -246,6 +246,16 @@ def compile_case(real: Real, case, var, extra=(), stage_after=None):
                     router.method(mk_handler(real, cs, name + "_fn"), name=name)
                 else:
                     raise ValueError(how)
+            if refused:
+                # registrations the router REFUSES (the same signature once more; a configuration under which the method can never
+                # run): the caller catches the error and goes on -- nothing of them may remain in the contract or the program
+                for bad in (lambda: router.add_method_handler(pt.ABIReturnSubroutine(mk_handler(real, case, "hnd"))),
+                            lambda: router.add_method_handler(pt.ABIReturnSubroutine(mk_handler(real, case, "never")),
+                                                              method_config=pt.MethodConfig(no_op=pt.CallConfig.NEVER))):
+                    try:
+                        bad()
+                    except real.own:
+                        pass
             fp = var["frame_pointers"] if var["version"] >= 8 else None
             ap, cl, contract = router.compile_program(
                 version=var["version"], optimize=pt.OptimizeOptions(frame_pointers=fp, scratch_slots=var["scratch_slots"]))
@@ -805,10 +815,13 @@ def check_case(cx: Ctx, case, vs, r, n_calls=1, extra=()):
         stage = 1 if (extra and r.random() < 0.5) else None
         if stage is not None:
             cx.count("registration/staged (compiled once before the later registrations)")
-        res = compile_case(real, case, var, extra, stage_after=stage)
+        refused = r.random() < 0.3
+        if refused:
+            cx.count("registration/with refused registrations in between")
+        res = compile_case(real, case, var, extra, stage_after=stage, refused=refused)
         cx.compiles += 1
         cx.count("variant/" + vkey(var))
-        base = {"case": case, "variant": var, "extra": [[cs, nm, how] for cs, nm, how in extra], "stage_after": stage}
+        base = {"case": case, "variant": var, "extra": [[cs, nm, how] for cs, nm, how in extra], "stage_after": stage, "refused": refused}
         if res[0] == "err":
             cls = res[2][:60]
             cx.rejected_by_pyteal[cls] = cx.rejected_by_pyteal.get(cls, 0) + 1
@@ -999,7 +1012,7 @@ def replay(path: str) -> int:
             return 0
         var = body["variant"]
         extra = [tuple(x) for x in body.get("extra", [])]
-        res = compile_case(real, case, var, extra, stage_after=body.get("stage_after"))
+        res = compile_case(real, case, var, extra, stage_after=body.get("stage_after"), refused=bool(body.get("refused")))
         print("variant:", var)
         if res[0] == "err":
             print("real  : rejected", res[1], res[2])
